@@ -239,7 +239,15 @@ pub fn compare(obs: &ObsMap, exp: &ExpectMap) -> Option<String> {
                     return Some(format!("{}: attribute {} has value {:?}, model {:?}", k, a.0, rv, a.1));
                 }
             }
+            let mut real_defaults: Vec<(String, String)> = o.attrs.iter().filter(|a| a.key.id == 0).map(|a| (a.name.clone(), a.value.clone())).collect();
+            real_defaults.sort();
+            if real_defaults != e.defaults {
+                return Some(format!("{}: attributes present through DTD defaults {:?}, model {:?}", k, real_defaults, e.defaults));
+            }
             for a in &o.attrs {
+                if a.key.id == 0 && a.specified {
+                    return Some(format!("{}: defaulted attribute {} reports specified()=true", k, a.name));
+                }
                 if a.key.id != 0 && !a.specified {
                     return Some(format!("{}: attribute {} attached to the element reports specified()=false", k, a.name));
                 }
